@@ -1,5 +1,6 @@
 import LarkVerif.EarleyExec
 import LarkVerif.EarleyExpected
+import LarkVerif.LR0Viable
 import LarkVerif.LRComplete
 /-! # C08 — rejections happen at the first offending position -/
 namespace Props.C08
@@ -44,5 +45,17 @@ theorem earley_expected_exact (G : EarleyProto.Grammar) (L : EarleyProto.FLattic
 theorem earley_expected_needs_productive :
     EarleyProto.Expected EarleyProto.badG EarleyProto.badL 0 1 2 ∧ ¬ EarleyProto.LegalNext EarleyProto.badG EarleyProto.badL 0 1 2 :=
   EarleyProto.unproductive_counterexample
+
+/-- **LALR, "every terminal in accepts can legally come next".** For an LR(0) automaton passing `LR0.checkLR0` (lark's exported item sets, kernels and
+    transitions, per grammar) over a productive grammar: if the state reached from the start state along the stack symbols `γ` has an item with its
+    dot in front of terminal `a` — the only way a shift on `a` enters the table — then for every token string `u` that reduces to `γ` some sentence
+    begins with `u ++ [a]`. -/
+theorem lalr_shifted_terminal_is_legal {G : EarleyProto.Grammar} {A : LR0.Auto} {start q0 : Nat} (h : LR0.checkLR0 G A = true)
+    (order : List EarleyProto.Rule) (hP : EarleyProto.productiveB G order = true) (h0 : q0 < A.items.length)
+    (hstart : ∀ x ∈ A.kernelOf q0, x.2 = 0 ∧ x.1.lhs = start ∧ x.1 ∈ G.rules)
+    {γ : List EarleyProto.Sym} {q : Nat} (hr : LR0.Reach A q0 γ q) {r : EarleyProto.Rule} {d a : Nat} (hin : (r, d) ∈ A.itemsOf q)
+    (hs : r.rhs[d]? = some (EarleyProto.Sym.t a)) {u : List Nat} (hu : EarleyProto.DerivesSeq G γ u) :
+    ∃ w, EarleyProto.DerivesSeq G [EarleyProto.Sym.nt start] (u ++ a :: w) :=
+  LR0.shift_symbol_viable h (EarleyProto.productiveB_sound hP) h0 hstart hr hin hs hu
 
 end Props.C08
